@@ -27,8 +27,7 @@ def norm_stmt(node: ast.AST) -> str:
         s = ast.unparse(node)
     except Exception:  # pragma: no cover
         s = ast.dump(node)
-    s = ' '.join(s.split())
-    return s if len(s) <= 200 else s[:197] + '...'
+    return ' '.join(s.split())
 
 
 class Param:
